@@ -66,35 +66,76 @@ def rule_codec(ctx):
     paths = run_method(p, init)
     ok = all({(e.data["attr"], show(e.data["value"])) for e in pa.events if e.kind == "store"} == {("binary", "binary"), ("format", "format")} for pa in paths)
     ctx.check(ok, "C08.CODEC", init.short, "stores binary and format unchanged", "BLOB.__init__ does not store binary and format unchanged", fi=init, text="init")
-    # producers
-    prods = [(p.cls(f"{IE}.BLOB").find_method("to_set_message"), "self.value"), (p.cls("indi.client.elements.BLOB").find_method("to_new_message"), "self._new_value")]
-    for f_, src in prods:
-        paths = run_method(p, f_, self_val=Term("param", "self", hint=f_.cls))
-        ok = False
-        for pa in paths:
-            v = pa.value
-            if pa.outcome == "return" and isinstance(v, Term) and v.op == "call":
-                kw = dict((k, show(x)) for k, x in v.args[2])
-                if kw.get("value") == f"{src}.binary_base64":
-                    ok = kw.get("size") == f"{src}.size" and kw.get("format") == f"{src}.format"
-        ctx.check(ok, "C08.CODEC", f_.short, "oneBLOB(value=base64, size=len, format) of one value object", "a BLOB producer does not send the value's base64 text together with its own size and format", fi=f_, text=f"producer:{f_.cls.module.name}")
+    # producer (driver side; the client-side producer is decided by the imported C06.CTOR)
+    from .common import backing_field, public_get
+    from .driverworld import _reachable_objs, build_drivers
+    from .clientworld import build_mirror, client_opts
+    ecls = p.cls(f"{IE}.BLOB")
+    f_ = ecls.find_method("to_set_message")
+    valf = backing_field(p, ecls, "value")
+
+    def run_prod(it: Interp):
+        drivers = build_drivers(it, p)
+        by = {o.label: o for o in _reachable_objs(drivers["DEVA"])}
+        el, other = by.get("el:DEVA.V4.A"), by.get("el:DEVA.V4.B")
+        if el is None or other is None or valf not in el.attrs:
+            raise Undecided("constructed driver has no BLOB elements V4.A / V4.B with a value field")
+        for o, tag in ((el, ""), (other, ":other")):
+            o.attrs[valf] = Obj(None, {"binary_base64": Obj(None, label=f"<b64{tag}>"), "size": Obj(None, label=f"<size{tag}>"), "format": Obj(None, label=f"<fmt{tag}>")}, label=f"<blob{tag}>")
+        return it.run_function(Fn(f_, el), [], {})
+
+    paths = explore(p, run_prod, {"inline": lambda fi, node: fi.kind == "getter" and fi.module.name.startswith("indi.device.properties")})
+    ok = bool(paths)
+    for pa in paths:
+        v = pa.value
+        kw = dict(v.args[2]) if pa.outcome == "return" and isinstance(v, Term) and v.op == "call" else {}
+        if [getattr(kw.get(k), "label", None) for k in ("value", "size", "format")] != ["<b64>", "<size>", "<fmt>"]:
+            ok = False
+    ctx.check(ok, "C08.CODEC", f_.short, "oneBLOB(value=base64, size=len, format) of the element's own value object", "a BLOB producer does not send its value's base64 text together with that value's size and format", fi=f_, text=f"producer:{f_.cls.module.name}")
     # consumers
-    cons = [p.cls(f"{IE}.BLOB").find_method("set_value_from_message"), p.cls("indi.client.elements.BLOB").find_method("set_value_from_message")]
-    for f_ in cons:
-        paths = run_method(p, f_, self_val=Term("param", "self", hint=f_.cls))
-        ok = True
-        for pa in paths:
-            if pa.outcome != "return":
-                continue
-            dec_ = [e for e in pa.events if e.kind == "call" and is_call(e.data["term"], method="from_base64")]
-            if len(dec_) != 1 or [show(a) for a in dec_[0].data["args"]] != ["msg.value", "msg.format"]:
-                ok = False
-                continue
-            blob = dec_[0].data["term"]
-            sink = [e for e in pa.events if (e.kind == "call" and is_call(e.data["term"], method="set_value") and e.data["args"] and e.data["args"][0] is blob) or (e.kind == "store" and e.data.get("attr") == "_value" and e.data["value"] is blob)]
-            if len(sink) != 1:
-                ok = False
-        ctx.check(ok, "C08.CODEC", f_.short, "decodes msg.value/msg.format once and keeps exactly that object", "a BLOB consumer does not decode (msg.value, msg.format) exactly once and keep that object", fi=f_, text=f"consumer:{f_.cls.module.name}")
+    def child():
+        return Obj(p.cls("indi.message.one_parts.OneBLOB"), {"name": Const("A"), "value": Obj(None, label="<text>"), "format": Obj(None, label="<format>"), "size": Obj(None, label="<size>"), "__closed__": Const(True)}, label="child")
+
+    def is_decoded(t):
+        return isinstance(t, Term) and is_call(t, method="from_base64") and [getattr(x, "label", None) for x in t.args[1]] == ["<text>", "<format>"]
+
+    g = ecls.find_method("set_value_from_message")
+
+    def run_cd(it: Interp):
+        drivers = build_drivers(it, p)
+        el = {o.label: o for o in _reachable_objs(drivers["DEVA"])}.get("el:DEVA.V4.A")
+        it.el = el
+        return it.run_function(Fn(g, el), [child()], {})
+
+    paths = explore(p, run_cd, {"inline": lambda fi, node: False, "assert_forks": False})
+    ok = bool(paths)
+    for pa in paths:
+        if pa.outcome != "return":
+            continue
+        dec_ = [e for e in pa.events if e.kind == "call" and is_call(e.data["term"], method="from_base64")]
+        sink = [e for e in pa.calls(method="set_value") if e.data["args"] and dec_ and e.data["args"][0] is dec_[0].data["term"] and isinstance(e.data["callee"], Fn) and e.data["callee"].self_val is pa.interp.el]
+        if len(dec_) != 1 or not is_decoded(dec_[0].data["term"]) or len(sink) != 1:
+            ok = False
+    ctx.check(ok, "C08.CODEC", g.short, "decodes msg.value/msg.format once and keeps exactly that object", "a BLOB consumer does not decode (msg.value, msg.format) exactly once and keep that object", fi=g, text=f"consumer:{g.cls.module.name}")
+    h = p.cls("indi.client.elements.BLOB").find_method("set_value_from_message")
+
+    def run_cc(it: Interp):
+        cl, vecs, els = build_mirror(it, p, "BLOB", layout=(("DEV", "V1"),))
+        el = els[("DEV", "V1", "A")]
+        r = it.run_function(Fn(h, el), [child()], {})
+        it.kept = public_get(it, el, "value")
+        it.kept_other = public_get(it, els[("DEV", "V1", "B")], "value")
+        return r
+
+    paths = explore(p, run_cc, {"inline": lambda fi, node: False, "assert_forks": False})
+    ok = bool(paths)
+    for pa in paths:
+        if pa.outcome != "return":
+            continue
+        dec_ = [e for e in pa.events if e.kind == "call" and is_call(e.data["term"], method="from_base64")]
+        if len(dec_) != 1 or not is_decoded(dec_[0].data["term"]) or pa.interp.kept is not dec_[0].data["term"] or is_decoded(pa.interp.kept_other):
+            ok = False
+    ctx.check(ok, "C08.CODEC", h.short, "decodes msg.value/msg.format once and keeps exactly that object", "a BLOB consumer does not decode (msg.value, msg.format) exactly once and keep that object as the element's value", fi=h, text=f"consumer:{h.cls.module.name}")
 
 
 def rule_null(ctx):
